@@ -38,7 +38,7 @@ def enc_size(n):
     return 35 + 21 * ((n + 253) // 254) + n + 21
 
 
-def gen_frontier_case(rng):
+def gen_frontier_case(rng, slacks=None):
     """A set that fills the tape to within a few bytes of its last usable byte (TAPE - 1), mixing sizes on the 254-byte block boundary."""
     used = set()
     srcs = []
@@ -47,7 +47,7 @@ def gen_frontier_case(rng):
         ln = rng.choice([0, 0, 254, 254, 508, 253, 255, 1, rng.randint(0, 900)])
         total += enc_size(ln)
         srcs.append({"arg": gen_source_path(rng, used), "content": gen_content(rng, ln)})
-    slack = rng.choice([0, 0, 1, 2, 20, 21, 22, 41, 42, 43, 63, 64, rng.randint(0, 130)])
+    slack = rng.choice(slacks or [0, 0, 1, 2, 20, 21, 22, 41, 42, 43, 63, 64, rng.randint(0, 130)])
     target = TAPE - 1 - slack - total
     ln = next((k for k in range(max(0, target - 56 - 21 * 90), target) if enc_size(k) == target), None)
     if ln is None:
